@@ -272,10 +272,20 @@ func (env *Env) tr(e Expr) TV {
 			var pats []string
 			for _, tg := range e.Triggers {
 				var ts []string
+				bad := false
 				for _, t := range tg {
-					ts = append(ts, ch.tr(t).T)
+					tt := ch.tr(t).T
+					if strings.Contains(tt, "(ite ") {
+						bad = true // conditionals are not allowed in patterns
+					}
+					ts = append(ts, tt)
 				}
-				pats = append(pats, ":pattern ("+strings.Join(ts, " ")+")")
+				if !bad {
+					pats = append(pats, ":pattern ("+strings.Join(ts, " ")+")")
+				}
+			}
+			if len(pats) == 0 {
+				return TV{fmt.Sprintf("(%s (%s) %s)", q, strings.Join(vs, " "), body.T), "Bool", types.Typ[types.Bool]}
 			}
 			return TV{fmt.Sprintf("(%s (%s) (! %s %s))", q, strings.Join(vs, " "), body.T, strings.Join(pats, " ")), "Bool", types.Typ[types.Bool]}
 		}
